@@ -418,6 +418,26 @@ runs with a schedulable GC by one last request that meets a GC pass over the emp
 is abandoned; C06 profile 7 opens with the head of the queue timing out less than one tick
 before the window opens while two more requests wait behind it.
 
+Twelfth wave (suffix l), 16 changes: 11 were caught as delivered (C01l, C02l, C04l, C06l,
+C08l, C09l, C10l, C11l, C12l, C18l, C20l), 5 were missed at first. What was changed:
+C03l (no transaction URL had an empty path segment: one in eight has a doubled slash now, an
+empty segment is a segment; a path parameter against an empty segment is left undecided),
+C05l (quota files were wrong in their structure only, never in a field: the strategy of a
+quota or of its internal limit is missing, empty, or has an unknown unit, a negative maximum,
+a zero interval or a word where a number belongs),
+C15l (the plugin reports failed transactions to the engine's admin endpoint before it
+aggregates a batch; the harness ran without `ENGINE_ADMIN_PORT`, so that code never ran: the
+child process has it set now and the process's default HTTP transport is a stub that is
+reachable, unreachable, unreachable every other time, or answers 500 - no socket is opened),
+C17l (sequence ids were short: a quarter of the C17F runs use ids that agree in their first
+48 characters),
+C19l (a call in flight through the gateway never outlasted the cool-down, and it never ended
+in a gateway failure: both happen now; the reference had also let the count start again after
+a cool-down, requiring the breaker to re-open only after a full threshold of new failures -
+the statement clears the count on a successful call through the gateway and on nothing else,
+so a gateway failure that finds the count at the threshold leaves the breaker open whenever it
+is recorded; the unchanged interceptor does that, 100 000 runs without a report).
+
 ### 12.1 Reverting the repairs
 
 `tools/revert_all_fixes.py` reverts every `fix:` commit, one at a time, in a scratch worktree
